@@ -37,7 +37,7 @@ ObsMatches(r, i, lst) ==
        ELSE r.obs[i] = <<lst.snap, ShownRet(r.calls[i].kind, lst.ret)>>
 
 TraceInit == /\ InitWith(EmptyContract) /\ l = 1 /\ k = 0 /\ phase = "start" /\ ok = TRUE
-             /\ TLCSet(1, 1) /\ TLCSet(2, <<>>)
+             /\ TLCSet(1, 1) /\ TLCSet(2, {})
 
 TrStart == /\ phase = "start" /\ l <= Len(Rec)
            /\ Deploy(ContractOf(Rec[l]))
@@ -52,7 +52,7 @@ TrEnd == /\ phase = "run" /\ (k > Len(Rec[l].calls) \/ aborted)
          /\ LET good == /\ ok /\ FrameOK
                         /\ Rec[l].out = (IF aborted THEN "revert" ELSE "return")
                         /\ Len(Rec[l].obs) = k - 1            \* nothing ran after an abort
-            IN IF good THEN TRUE ELSE TLCSet(2, Append(TLCGet(2), l))
+            IN IF good THEN TRUE ELSE TLCSet(2, TLCGet(2) \cup {l})
          /\ TLCSet(1, l + 1)
          /\ l' = l + 1 /\ phase' = "start" /\ UNCHANGED <<vars, k, ok>>
 
@@ -61,7 +61,6 @@ TraceSpec == TraceInit /\ [][TraceNext]_tvars
 
 Accepted ==
     IF TLCGet(1) # Len(Rec) + 1 THEN Print(<<"FIRST-UNMATCHED", TLCGet(1)>>, FALSE)
-    ELSE IF TLCGet(2) = <<>> THEN TRUE
-    ELSE Print(<<"REJECTED", ToJson([i \in DOMAIN TLCGet(2) |->
-                    [idx |-> TLCGet(2)[i], id |-> Rec[TLCGet(2)[i]].id, why |-> Rec[TLCGet(2)[i]].test]])>>, FALSE)
+    ELSE IF TLCGet(2) = {} THEN TRUE
+    ELSE Print(<<"REJECTED", ToJson({ [idx |-> i, id |-> Rec[i].id, why |-> Rec[i].test] : i \in TLCGet(2) })>>, FALSE)
 =============================================================================
